@@ -49,7 +49,7 @@ def run(tier, seed):
             bad.append(dict(failed="every yielded sample carries its own distinct seed sequence", case=dict(keys=keys)))
         # TrajGenNormal
         nd2 = rng.choice([1, 1, 2]); sigma = rng.uniform(0.2, 5.0); st_ = rng.randrange(2 ** 31); ns = rng.randint(1, 12)
-        pos = np.array([rng.uniform(-5, 5) for _ in range(nd2)]); mom = np.array([rng.choice([0.3, 1.0, 5.0, 20.0]) * sigma ** -1 * rng.uniform(0.2, 3) for _ in range(nd2)])
+        pos = np.array([rng.uniform(-5, 5) for _ in range(nd2)]); mom = np.array([rng.choice([0.3, 1.0, 5.0, 20.0, 0.0, -0.5, -3.0]) * sigma ** -1 * rng.uniform(0.2, 3) for _ in range(nd2)])
         g = TrajGenNormal(pos, mom, 0, sigma, seed=rng.randrange(2 ** 31), seed_traj=st_)
         twin = np.random.default_rng(st_)
         draws = []
